@@ -274,7 +274,10 @@ def tria_compute_divergence(tria, tfunc):
     dat = np.column_stack((x0, x1, x2)).reshape(-1)
     # convert back to nparray 1D
     vfunc = np.squeeze(
-        np.asarray(0.5 * sparse.csc_matrix((dat, (i, j))).todense(), dtype=tfunc.dtype)
+        np.asarray(
+            0.5 * sparse.csc_matrix((dat, (i, j))).todense(),
+            dtype=np.result_type(tfunc.dtype, np.float32),
+        )
     )
     return vfunc
 
@@ -775,7 +778,7 @@ def tet_compute_divergence(tet, tfunc):
     vfunc = -np.squeeze(
         np.asarray(
             (1.0 / 6.0) * sparse.csc_matrix((dat, (i, j))).todense(),
-            dtype=tfunc.dtype,
+            dtype=np.result_type(tfunc.dtype, np.float32),
         )
     )
     return vfunc
